@@ -114,12 +114,13 @@ namespace BitSerializer
 			if constexpr (TArchive::IsLoading())
 			{
 				cont.clear();
-				auto hint = cont.begin();
 				while (!arrayScope.IsEnd())
 				{
-					typename TMultiMap::value_type pair;
+					typename TMultiMap::value_type pair{};
 					if (Serialize(arrayScope, pair)) {
-						hint = cont.emplace_hint(hint, std::move(pair));
+						// The hint is always the end: elements with equal keys must keep the order in which they were saved
+						// (inserting before the previously inserted element reversed them)
+						cont.emplace_hint(cont.end(), std::move(pair));
 					}
 				}
 			}
